@@ -108,6 +108,14 @@ def layouts(tier):
             add(4, dw, 2, [_reg(dw + 1, "rw"), _reg(1, "rw")], (None, 0))
             for regs in triples:
                 add(4, dw, 0, [dict(r, addr=None if r["addr"] is None else r["addr"] + 3) for r in regs], (None, 0))
+    # byte-wide bus (the width real systems use): write data and register values from token sets
+    for regs in ([_reg(8, "rw", None), _reg(12, "rw", None)], [_reg(20, "rw", 1), _reg(8, "r", None)],
+                 [_reg(16, "w", 2), _reg(9, "rw", 5)], [_reg(24, "rw", 3), _reg(1, "rw", None)]):
+        add(3, 8, 0, regs, (None, 0))
+    add(3, 8, 1, [_reg(12, "rw", None), _reg(8, "rw", None)], (None,))
+    if not quick:
+        add(4, 16, 0, [_reg(40, "rw", 1), _reg(16, "rw", None), _reg(3, "r", None)], (None, 0, 1))
+        add(4, 8, 0, [_reg(33, "rw", 2), _reg(8, "w", None), _reg(8, "r", 9)], (None, 0))
     if not quick:
         # systematic: EVERY placement of two registers on 3 address bits (widths 1 / dw+1 / 2*dw+1, four access
         # pairings, implicit or any explicit address each), three sharing limits; and three registers of
